@@ -35,6 +35,7 @@ func runC06() *RunResult {
 	// shared functions: parsed before the tasks start; most are left unevaluated so that the
 	// first evaluation (which is when state-dependent writes happen) is done by the tasks
 	ns := 1 + rn(4)
+	warmed := make([]bool, ns)
 	for i := 0; i < ns; i++ {
 		cfg := genCfg(true)
 		var p *PathSpec
@@ -46,6 +47,7 @@ func runC06() *RunResult {
 		pf := soloParse(p, cfg)
 		if chance(25) && pf.Fn != nil {
 			soloEval(pf, deepCopy(w.docs[0].Val), [nFuncs]uint64{}, ref) // warmed up
+			warmed[i] = true
 		}
 		w.shared = append(w.shared, pf)
 		cases = append(cases, fnv(p.Text+"|"+w.docs[0].Snap))
@@ -153,6 +155,25 @@ func runC06() *RunResult {
 
 	res := w.run()
 	w.progressVerdict(res)
+	// reach probe: a shared function that nobody evaluated before the tasks started is called
+	// by two or more tasks (its first evaluation happens under the scheduler)
+	for si := range w.shared {
+		if warmed[si] {
+			continue
+		}
+		callers := 0
+		for _, t := range w.tasks {
+			for _, o := range t.ops {
+				if o.Kind == opCallShared && o.Slot == si && o.Done {
+					callers++
+					break
+				}
+			}
+		}
+		if callers >= 2 {
+			res.Probes["unevaluated-shared-function-called-by-several-tasks"]++
+		}
+	}
 	// shared documents are inspected only after all tasks have been joined: while tasks run,
 	// the race detector is what watches them
 	if res.Violation == nil {
